@@ -12,9 +12,12 @@
    [fits p]: the payload is at most isize::MAX bytes (guaranteed for every Vec<u8>).
    [value]: the typed values of the statement; [wf_value] their ranges.  Float Display, UTF-8-lossy and
    Windows-1252 decoding are the Section variables of Dlt/Text.v (external code, not modelled): the
-   theorems hold for every such function. *)
+   theorems hold for every such function.
+   Producers inside the crate (Dlt/Producers.v): [bmsg] = the flags, noar and payload of a message the crate
+   built around a payload it encoded itself (export plugin info messages, blf AppText, anonymize plugin, text
+   converters); [bmsg_args m] decodes it with the flags the message carries. *)
 From Coq Require Import List NArith ZArith Bool Lia.
-From AdltV Require Import Base.Res Base.MachInt Dlt.Args Dlt.ArgsProofs Dlt.Text Dlt.TextProofs.
+From AdltV Require Import Base.Res Base.MachInt Dlt.Args Dlt.ArgsProofs Dlt.Text Dlt.TextProofs Dlt.Producers Dlt.ProducersProofs.
 Import ListNotations.
 Open Scope N_scope.
 
@@ -186,6 +189,102 @@ Proof.
   - vm_compute. discriminate.
 Qed.
 
+(* ---- the byte-order flag is part of the encoding.  Typed values written in one order and decoded in the other:
+   NOTHING comes back (every type word of a typed value is below 2^16, so read in the other order its low half is
+   zero: no type bit, the iterator stops) — in particular not the arguments *)
+Theorem C18_decode_other_order_yields_nothing (be : bool) (v : value) (vals : list value) :
+  wf_value v -> fits (payload_from_args (map (value_arg be) (v :: vals))) ->
+  msg_args true (negb be) (payload_from_args (map (value_arg be) (v :: vals))) = Ok [] /\
+  msg_args true (negb be) (payload_from_args (map (value_arg be) (v :: vals))) <> Ok (map (value_arg (negb be)) (v :: vals)).
+Proof. apply values_other_order. Qed.
+
+(* the witness on a one-string payload: "Filters used: none" as the serializer writes it (host order), read as
+   big endian: zero arguments, empty text *)
+Example C18_decode_other_order_refuted :
+  let text := [70; 105; 108; 116; 101; 114; 115; 32; 117; 115; 101; 100; 58; 32; 110; 111; 110; 101] in
+  exists n p, dlt_args [SStr text] = SOk (n, p) /\ n = 1 /\
+    msg_args true false p = Ok [sval_arg_d (SStr text)] /\
+    msg_args true true p = Ok [] /\
+    payload_text (fun _ => []) (fun _ => []) (fun s => s) (fun s => s) true p = Ok [].
+Proof. cbv zeta. eexists _, _. split; [vm_compute; reflexivity|]. repeat split; vm_compute; reflexivity. Qed.
+
+(* decode (flag f) (encode f args) = args instantiated for the encoder that has no choice: dlt_args! writes host
+   order, so whoever builds a message around its output must announce host order — with it the values come back,
+   with the other flag nothing does *)
+Theorem C18_serde_flag_must_be_host_order (v : sval) (vals : list sval) :
+  Forall wf_sval (v :: vals) -> fits (payload_from_args (map sval_arg_d (v :: vals))) ->
+  exists n p, dlt_args (v :: vals) = SOk (n, p) /\
+    msg_args true host_be p = Ok (map sval_arg_d (v :: vals)) /\
+    msg_args true (negb host_be) p = Ok [].
+Proof.
+  intros H F. destruct (serde_other_order v vals H F) as [n [p [E [A B]]]]. exists n, p. auto.
+Qed.
+
+(* ---- the producers inside the crate build messages that decode (with the flags THEY carry) to what was encoded *)
+(* export plugin: the head of the export file for every list of info texts, whatever the byte order of the message
+   that triggered the export; one info text that fits gives exactly one string argument, noar 1, canonical text *)
+Theorem C18_export_info_msgs_decode (from_be : bool) (created : bytes) (texts : list bytes) :
+  export_info_msgs from_be created texts = export_info_msgs (negb from_be) created texts /\
+  Forall (fun m => m_verbose m = true /\ m_be m = host_be /\
+                   exists args, bmsg_args m = Ok args /\ m_noar m = N.of_nat (length args) /\
+                                Forall (fun a => a_be a = m_be m) args)
+         (export_info_msgs from_be created texts).
+Proof. split; [destruct from_be; reflexivity|apply export_info_msgs_decode]. Qed.
+
+Theorem C18_export_info_text_decodes (from_be : bool) (text : bytes)
+        (fdisp32 fdisp64 : N -> bytes) (lossy w1252 : bytes -> bytes) :
+  (0 < plen text <= 65510 ->
+     exists m, export_info_text_msg from_be text = Some m /\ m_verbose m = true /\ m_noar m = 1 /\
+       bmsg_args m = Ok [value_arg (m_be m) (VStr true (text ++ [0]))] /\
+       payload_text fdisp32 fdisp64 lossy w1252 (m_be m) (m_payload m)
+         = Ok (canon_text fdisp32 fdisp64 lossy w1252 [VStr true (text ++ [0])])) /\
+  (plen text = 0 \/ 65510 < plen text -> export_info_text_msg from_be text = None).
+Proof.
+  split; [|apply export_info_text_skipped].
+  intros H. destruct (export_info_text_decodes from_be text H) as [m [E [V [D [Nn _]]]]].
+  exists m. split; [exact E|]. split; [exact V|]. split; [exact Nn|]. split; [exact D|].
+  unfold export_info_text_msg in E. destruct (plen text =? 0); [discriminate|].
+  destruct (_ && _); [|discriminate]. inversion E as [Em]. cbn [m_be m_payload export_get_info_msg].
+  destruct (dlt_args_str text) as [E2 _]; [lia|].
+  unfold dlt_args_or_default. rewrite E2. cbn [snd].
+  change (enc_args false [str_arg false text]) with (enc_args host_be (map (value_arg host_be) [VStr true (text ++ [0])])).
+  rewrite <- payload_from_values. apply text_canonical.
+  - constructor; [|constructor]. cbn [wf_value]. rewrite ArgsProofs.plen_app. change (plen [0]) with 1. lia.
+  - rewrite payload_from_values. unfold fits, isizemax.
+    change (enc_args host_be (map (value_arg host_be) [VStr true (text ++ [0])])) with (enc_args false [str_arg false text]).
+    rewrite plen_enc_str. lia.
+Qed.
+
+(* blf AppText (every text: no panic; a text too long for one message is carried as far as it fits), the anonymize
+   plugin's sample string (written in the order of the message it replaces, for both orders), the text
+   converters' log message (no argument, noar 0) *)
+Theorem C18_producers_decode :
+  (forall text, exists m rest, blf_apptext_msg text = Ok m /\ m_verbose m = true /\ m_noar m = 1 /\
+       bmsg_args m = Ok [value_arg (m_be m) (VStr true (blf_cut text ++ [0]))] /\
+       text = blf_cut text ++ rest /\ (plen text <= 65506 -> rest = [])) /\
+  (forall m rt, m_verbose m = true -> rt < 2 ^ 64 ->
+       bmsg_args (anon_msg m rt) = Ok [value_arg (m_be m) (VStr true (anon_text rt ++ [0]))] /\
+       m_be (anon_msg m rt) = m_be m /\ m_verbose (anon_msg m rt) = true) /\
+  (bmsg_args textline_log_msg = Ok [] /\ m_noar textline_log_msg = 0).
+Proof.
+  split; [|split].
+  - intros text. destruct (blf_apptext_decodes text) as [m [E [V [D [Nn _]]]]].
+    destruct (blf_cut_prefix text) as [rest [P Q]]. exists m, rest. repeat split; assumption.
+  - apply anon_verbose_decodes.
+  - split; reflexivity.
+Qed.
+
+(* non-vacuity of the producer statements: the demonstration's info text behind a big-endian first message *)
+Example C18_producers_nonvacuous :
+  let text := [70; 105; 108; 116; 101; 114; 115; 32; 117; 115; 101; 100; 58; 32; 110; 111; 110; 101] in
+  export_info_text_msg true text
+    = Some {| m_be := false; m_verbose := true; m_noar := 1;
+              m_payload := [0; 130; 0; 0; 19; 0] ++ text ++ [0] |} /\
+  bmsg_args (anon_msg {| m_be := true; m_verbose := true; m_noar := 2; m_payload := [] |} 1234567)
+    = Ok [value_arg true (VStr true ([45; 45; 97; 110; 111; 110; 44; 114; 101; 99; 101; 112; 116; 105; 111; 110; 95; 116; 105; 109; 101; 58;
+                                      49; 50; 51; 52; 109; 115; 0]))].
+Proof. cbv zeta. split; vm_compute; reflexivity. Qed.
+
 (* non-vacuity: a mixed list in both byte orders satisfies the hypotheses; its decoding and text *)
 Example C18_nonvacuous :
   let vals := [VBool true; VSInt 2 (-2)%Z; VUInt 3 70000; VStr true [104; 105; 10; 0]; VRaw [0; 255]; VSInt 5 (- 2 ^ 127)%Z] in
@@ -230,3 +329,10 @@ Print Assumptions C18_strip_one_nul.
 Print Assumptions C18_text_ascii_string.
 Print Assumptions C18_encoder_before_fix_refuted.
 Print Assumptions C18_nonvacuous.
+Print Assumptions C18_decode_other_order_yields_nothing.
+Print Assumptions C18_decode_other_order_refuted.
+Print Assumptions C18_serde_flag_must_be_host_order.
+Print Assumptions C18_export_info_msgs_decode.
+Print Assumptions C18_export_info_text_decodes.
+Print Assumptions C18_producers_decode.
+Print Assumptions C18_producers_nonvacuous.
